@@ -239,6 +239,10 @@ package mod
 //@   requires forall k string :: imp(has(c.currentRow.ColumnValues, k), c.currentRow.ColumnValues[k] != nil && c.currentRow.ColumnValues[k].Value != nil)
 //@   modifies gf(ctx.Context.ptr, "resKind"), gf(ctx.Context.ptr, "resInt"), gff(ctx.Context.ptr, "resReal"), gfs(ctx.Context.ptr, "resText"), gfs(ctx.Context.ptr, "resBlob")
 //@   ensures visible-row-readable: imp(!c.currentRow.Deleted, result == nil)
+// the key column comes from the entry's key, every other column from the row, by the column's own name
+//@   at call:s3db.(*Key).Value assert key-column-from-the-key: i == c.t.KeyCol && arg0 == c.currentKey
+//@   at call:s3db.FromSQLiteValue assert other-columns-by-name: i != c.t.KeyCol && has(c.currentRow.ColumnValues, c.t.ColumnNameByIndex[i]) && arg0 == c.currentRow.ColumnValues[c.t.ColumnNameByIndex[i]].Value
+//@   at call:mod.setContextResult assert for-the-column-asked: arg0 == ctx && arg2 == i
 
 // ---------------------------------------------------------------------------
 // Maintenance glue (properties C12, C13). Refresh re-opens the table with the
@@ -255,6 +259,9 @@ package mod
 //@   ensures readonly-table-no-write: imp(aggData(ctx) != nil && has(s3db.tables, refreshName(ctx)) && s3db.tables[refreshName(ctx)] != nil && s3db.tables[refreshName(ctx)].S3Options.ReadOnly, puts == old(puts) && deletes == old(deletes))
 //@   ensures no-call-no-effect: imp(aggData(ctx) == nil, puts == old(puts) && deletes == old(deletes) && lists == old(lists))
 //@   ensures imp(s3db.inMemoryS3 != nil, s3db.inMemoryS3.Client != nil)
+// the table gets the freshly opened tree exactly when the open succeeded; a
+// failed open is reported and leaves the table as it was (never a nil tree)
+//@   ensures-local refreshed-iff-opened: imp(aggData(ctx) != nil && refreshName(ctx) != "" && has(s3db.tables, refreshName(ctx)) && s3db.tables[refreshName(ctx)] != nil, ite(err == nil, vt.Tree == nt && nt != nil, vt.Tree == old(vt.Tree) && gf(ctx.Context.ptr, "resKind") == 6))
 
 //@ func loadForDiffing
 //@   requires imp(s3db.inMemoryS3 != nil, s3db.inMemoryS3.Client != nil)
@@ -283,6 +290,7 @@ package mod
 
 // s3db_version: reports the version names of the table's handle; issues no
 // storage request of any kind (C11, C13).
+//@ spec verTable(ctx *sqlite.AggregateContext) bool = aggData(ctx) != nil && aggData(ctx).(*VersionFuncContext).tableName != "" && has(s3db.tables, aggData(ctx).(*VersionFuncContext).tableName) && s3db.tables[aggData(ctx).(*VersionFuncContext).tableName] != nil
 //@ func (*VersionFunc).Final
 //@   requires h != nil && ctx != nil && ctx.Context != nil
 //@   requires aggData(ctx) == nil || (typeis(aggData(ctx), *VersionFuncContext) && aggData(ctx).(*VersionFuncContext) != nil)   // set by Step
@@ -294,6 +302,11 @@ package mod
 //@   ensures uncommitted-changes-get-no-name: imp(aggData(ctx) != nil && aggData(ctx).(*VersionFuncContext).tableName != "" && has(s3db.tables, aggData(ctx).(*VersionFuncContext).tableName) &&
 //@       s3db.tables[aggData(ctx).(*VersionFuncContext).tableName] != nil && !s3db.tables[aggData(ctx).(*VersionFuncContext).tableName].Tree.Root.readonly &&
 //@       (s3db.tables[aggData(ctx).(*VersionFuncContext).tableName].Tree.Root.tombstoned || mastDirty(*s3db.tables[aggData(ctx).(*VersionFuncContext).tableName].Tree.Root.crdt.Mast)), gf(ctx.Context.ptr, "resKind") == 6)
+// the answer is the JSON list of the table's version names ("[]" exactly for no version), or an error — never a name after a failure
+//@   ensures-local failure-is-an-error-result: imp(verTable(ctx) && err != nil, gf(ctx.Context.ptr, "resKind") == 6)
+//@   ensures-local empty-list-is-the-empty-version: imp(verTable(ctx) && err == nil && len(roots) == 0, gf(ctx.Context.ptr, "resKind") == 3 && gfs(ctx.Context.ptr, "resText") == "[]")
+//@   ensures-local names-are-the-json-of-the-roots: imp(verTable(ctx) && err == nil && len(roots) > 0, gf(ctx.Context.ptr, "resKind") != 6 && gfs(ctx.Context.ptr, "resText") == string(je))
+//@   ensures missing-name-is-an-error: imp(aggData(ctx) != nil && aggData(ctx).(*VersionFuncContext).tableName == "", gf(ctx.Context.ptr, "resKind") == 6)
 
 // s3db_vacuum: the table-valued function hands the parsed cutoff to
 // s3db.Vacuum; on a read-only table nothing is written (C13).
@@ -306,6 +319,8 @@ package mod
 //@   modifies vc.tableName, vc.beforeTime, vc.vacuumErr, puts, deletes, deleteFailures, lastPutPrefix, lastPutName, lastPutOK, s3db.tables[vacName(values)].Tree.Root, historyDeletions, historyHandle, historySnapshot, vacLastChildOld
 //@   ensures readonly-no-write: imp(len(values) == 2 && has(s3db.tables, vacName(values)) && s3db.tables[vacName(values)] != nil && old(s3db.tables[vacName(values)].Tree.Root.readonly), puts == old(puts) && deletes == old(deletes))
 //@   ensures rejected-no-effect: imp(result != nil, puts == old(puts) && deletes == old(deletes))
+//@   ensures missing-argument-is-an-error: imp(len(values) != 2 || valIsNil(values[0]) || valIsNil(values[1]) || valText(values[0]) == "" || valText(values[1]) == "", result != nil)
+//@   at call:s3db.Vacuum assert the-table-and-cutoff-asked-for: arg0 == vc.module.sc.ctx && arg1 == valText(values[0]) && arg2 == parsedTime(s3db.SQLiteTimeFormat, valText(values[1]))
 
 // ---------------------------------------------------------------------------
 // The xUpdate / xFilter / xNext glue (C02, C06, C07, C08): the common layer is
